@@ -508,8 +508,10 @@ impl<R: Read + Seek> Seek for CompressionLayerReader<'_, R> {
                         let distance_from_end = -pos;
                         if distance_from_end >= 0 {
                             self.seek(SeekFrom::Start(
-                                end_pos
-                                    - u64::try_from(distance_from_end).map_err(|_| {
+                                u64::try_from(distance_from_end)
+                                    .ok()
+                                    .and_then(|distance| end_pos.checked_sub(distance))
+                                    .ok_or_else(|| {
                                         io::Error::new(
                                             io::ErrorKind::InvalidInput,
                                             "Invalid distance_from_end value",
